@@ -97,3 +97,37 @@ package signing
 //@   site (*schnorr.ZKProof).Verify#0 : [C17.nonce-share-is-cofactor-cleared-before-its-proof-is-checked] torsionfree(round.Parameters.ec, px($arg2), py($arg2))
 //@   site signing.ecPointToExtendedElement#0 : [C17.nonce-share-is-cofactor-cleared-before-it-is-added-to-R] torsionfree(round.Parameters.ec, val($arg1), val($arg2))
 //@   loop 0 invariant round.started && riBytes != nil && fresh(riBytes)
+
+// ----- the round Start functions: state well-formedness shared by all rounds -----
+//@ define edN(round) = len(round.Parameters.parties.partyIDs)
+//@ define edSignWF(round) = wfParams(round.Parameters) && isedw(round.Parameters.ec) && wfIDs(round.Parameters.parties.partyIDs) && round.temp != nil && round.key != nil && round.data != nil && round.out != nil && round.end != nil && len(round.ok) == edN(round) && len(round.temp.signRound1Messages) == edN(round) && len(round.temp.signRound2Messages) == edN(round) && len(round.temp.signRound3Messages) == edN(round) && len(round.temp.cjs) == edN(round) && 0 <= round.Parameters.partyID.Index && round.Parameters.partyID.Index < edN(round)
+//@ define r1slotEd(m) = (!isnil(m) && istype(msgcontent(m), "*eddsa/signing.SignRound1Message") && cast(msgcontent(m), "*eddsa/signing.SignRound1Message") != nil)
+
+//@ func (*SignRound1Message).UnmarshalCommitment
+//@   props C06 C16
+//@   requires m != nil
+//@   ensures result != nil && fresh(result) && val(result) == beint(bytes(m.Commitment)) && val(result) >= 0
+
+//@ func (*base).getSSID
+//@   props C06 C12
+//@   requires round != nil && wfParams(round.Parameters) && okCurve(round.Parameters.ec) && wfIDs(round.Parameters.parties.partyIDs) && round.key != nil && round.temp != nil && round.temp.ssidNonce != nil
+//@   requires [committee-size] len(round.Parameters.parties.partyIDs) <= 1024 && len(round.key.BigXj) <= 1024
+//@   requires [public-shares-wellformed] forall k in 0..len(round.key.BigXj) :: (round.key.BigXj[k] != nil ==> (allocated(round.key.BigXj[k]) && wfPoint(round.key.BigXj[k])))
+//@   ensures result1 != nil ==> isnil(result0)
+//@   ensures result1 == nil ==> (!isnil(result0) && fresh(result0) && len(result0) <= 32)
+
+//@ func (*round1).Start
+//@   props C06 C05 C20 C02
+//@   requires round != nil && round.base != nil && edSignWF(round)
+//@   requires [committee-size] edN(round) <= 1024 && len(round.key.BigXj) <= 1024
+//@   requires [public-shares-wellformed] forall k in 0..len(round.key.BigXj) :: (round.key.BigXj[k] != nil ==> (allocated(round.key.BigXj[k]) && wfPoint(round.key.BigXj[k])))
+//@   modifies *
+//@   ensures [C02.second-start-sends-nothing] old(round.started) ==> (result != nil && sent(old(round.out)) == old(sent(round.out)))
+
+//@ func (*round2).Start
+//@   props C06 C05 C02
+//@   requires round != nil && round.round1 != nil && round.round1.base != nil && edSignWF(round)
+//@   requires [round-1-complete] forall j in 0..len(round.temp.signRound1Messages) :: r1slotEd(round.temp.signRound1Messages[j])
+//@   requires [own-nonce-from-round-1] round.temp.ri != nil && val(round.temp.ri) >= 0 && round.temp.pointRi != nil && validPoint(round.temp.pointRi) && round.temp.pointRi.curve == round.Parameters.ec && len(round.temp.ssid) <= 4096 && (forall k in 0..len(round.temp.deCommit) :: round.temp.deCommit[k] != nil)
+//@   modifies *
+//@   loop 0 invariant round.started
